@@ -398,12 +398,14 @@ func (channel *Channel) publishCurrentMessage() *amqp.Error {
 			return nil
 		}
 
-		qu.Push(message)
+		confirmed := qu.Push(message)
 		verifhook.At("publish.betweenQueues")
 
 		ex.GetMetrics().MsgOut.Counter.Inc(1)
 
-		if channel.confirmMode && message.ConfirmMeta != nil && message.ConfirmMeta.CanConfirm() && !message.IsPersistent() {
+		// whoever completes the confirmations of a message - this push, or the store once it has written
+		// the message (see vhost.handleConfirms) - acknowledges it; persistence of the message does not matter here
+		if confirmed {
 			channel.addConfirm(message.ConfirmMeta)
 		}
 	}
